@@ -1,3 +1,4 @@
+#![allow(unexpected_cfgs)]
 mod batch_maker;
 mod config;
 mod helper;
@@ -12,3 +13,14 @@ mod common;
 
 pub use crate::config::{Committee, Parameters};
 pub use crate::mempool::{ConsensusMempoolMessage, Mempool};
+
+/// Otherwise private items, re-exported for the verification harness only.
+#[cfg(hotstuff_verif)]
+pub mod verif_export {
+    pub use crate::batch_maker::{Batch, BatchMaker, Transaction};
+    pub use crate::helper::Helper;
+    pub use crate::mempool::MempoolMessage;
+    pub use crate::processor::{Processor, SerializedBatchMessage};
+    pub use crate::quorum_waiter::{QuorumWaiter, QuorumWaiterMessage};
+    pub use crate::synchronizer::Synchronizer;
+}
